@@ -216,14 +216,15 @@ pub(crate) fn node_in_state(
     req_age_s: Option<u64>,
     refresh: usize,
 ) -> Node {
+    // built from the public constructor plus field updates (not a struct literal), so that a new
+    // field added to `Node` does not break the harness
     let now = Instant::now();
-    Node {
-        handle: NodeHandle { id, addr },
-        last_response: Some(now - Duration::from_secs(resp_age_s)),
-        last_request: req_age_s.map(|a| now - Duration::from_secs(a)),
-        last_local_request: None,
-        refresh_requests: refresh,
-    }
+    let mut n = Node::as_bad(id, addr);
+    n.last_response = Some(now - Duration::from_secs(resp_age_s));
+    n.last_request = req_age_s.map(|a| now - Duration::from_secs(a));
+    n.last_local_request = None;
+    n.refresh_requests = refresh;
+    n
 }
 
 /// Arbitrary live-or-bad state for a known identity (symbolic ages up to 2 h, 0..=3 unanswered queries).
@@ -262,11 +263,10 @@ pub(crate) fn symbolic_slot_with(id: NodeId, addr: SocketAddr, coarse: bool) -> 
         (resp_age, req_age)
     };
     let now = Instant::now();
-    Node {
-        handle: NodeHandle { id, addr },
-        last_response: if never_answered { None } else { Some(now - Duration::from_secs(resp_age)) },
-        last_request: if never_answered || !has_req { None } else { Some(now - Duration::from_secs(req_age)) },
-        last_local_request: None,
-        refresh_requests: if never_answered { 0 } else { refresh },
-    }
+    let mut n = Node::as_bad(id, addr);
+    n.last_response = if never_answered { None } else { Some(now - Duration::from_secs(resp_age)) };
+    n.last_request = if never_answered || !has_req { None } else { Some(now - Duration::from_secs(req_age)) };
+    n.last_local_request = None;
+    n.refresh_requests = if never_answered { 0 } else { refresh };
+    n
 }
